@@ -163,6 +163,7 @@ def install():
             ev('launch', ref=ref, n=idx, snap=snap, via=('restart' if 'outputFile' not in kw else 'repeat'))
             if mode == 'launch+exit':
                 VFS.write(job.workingDirectory.directory)
+                ev('output', ref=ref)
 
         def exit_enabled(self):
             return (not self._done) and vrt.RT.now >= self.launched_at + self._duration
@@ -174,6 +175,7 @@ def install():
             self.returncode = 0 if self._reason == 'Success' else 1
             if self._outmode in ('launch+exit', 'exit') and self._reason == 'Success':
                 VFS.write(self.job.workingDirectory.directory)
+                ev('output', ref=self.job.reference)
             self._done = True
             if self in H.live:
                 H.live.remove(self)
